@@ -25,6 +25,18 @@ from checks import PROPS  # noqa: E402
 GOENV = dict(os.environ, GOFLAGS="-mod=mod", GOPROXY="off", GOSUMDB="off", GOTOOLCHAIN="local",
              CGO_ENABLED=os.environ.get("CGO_ENABLED", "1"))
 
+# VERIF_REPO (development only): run the checks against another checkout of the library, e.g. a
+# scratch worktree with a seeded change applied. Binaries, stats, evidence and replays of such a run
+# go to a separate directory so that /verif/evidence always describes /repo itself.
+REPO = os.path.abspath(os.environ.get("VERIF_REPO", "/repo"))
+ALT = REPO != "/repo"
+if ALT:
+    _tag = hashlib.sha1(REPO.encode()).hexdigest()[:8]
+    BUILD = os.path.join(BUILD, "alt-" + _tag)
+    OUT = os.path.join(BUILD, "out")
+    EVID = os.path.join(BUILD, "evidence")
+    REPLAYS = os.path.join(EVID, "replay")
+
 
 def log(*a):
     print(*a, file=sys.stderr, flush=True)
@@ -35,6 +47,13 @@ def build(pkg, race):
     name = pkg.replace("/", "_") + (".race" if race else "") + ".test"
     out = os.path.join(BUILD, name)
     cmd = ["go", "test", "-c", "-vet=off", "-tags", "verif", "-o", out]
+    if ALT:
+        modfile = os.path.join(BUILD, "go.mod")
+        src = open(os.path.join(HARNESS, "go.mod")).read().replace("=> /repo", "=> " + REPO)
+        with open(modfile, "w") as f:
+            f.write(src)
+        shutil.copy(os.path.join(HARNESS, "go.sum"), os.path.join(BUILD, "go.sum"))
+        cmd += ["-modfile", modfile]
     if race:
         cmd.append("-race")
     cmd.append("./" + pkg + "/")
@@ -66,7 +85,7 @@ def run_shard(binary, cfg, prop, tier, seed, shard, checks, extra_env=None, time
             os.remove(f)
     env = dict(GOENV, VERIF_OUT=outf, VERIF_KNOWN=KNOWN, VERIF_TIER=tier, VERIF_PROP=prop,
                VERIF_SHARD=str(shard), VERIF_CHECKS=str(checks), VERIF_SEED=str(seed),
-               VERIF_REPO=os.environ.get("VERIF_REPO", "/repo"),
+               VERIF_REPO=REPO,
                GORACE="halt_on_error=1 history_size=3")
     env.pop("VERIF_REPLAY", None)
     if extra_env:
